@@ -15,11 +15,11 @@ CONSTANTS
   FixN3 = TRUE
   FixK11 = TRUE
   Vals = {"v0"}
-  Dels = {"d0"}
+  Dels = {"d0", "d1"}
   Assets = {"ast0", "ast1"}
-  Amounts = {"1", "10"}
+  Amounts = {"5"}
   Fractions = {}
-  Gaps = {1, 2, 3, 7}
+  Gaps = {1, 2}
   AccrueCoins <- AccrueC
   InitAssets0 <- InitAssetsC
   Params0 <- ParamsC
@@ -30,8 +30,8 @@ CONSTANTS
   GovEventsC <- GovC
   Prefix <- PrefixC
   NativeAmounts = {}
-  MaxDepth = 8
-  MaxBlocks = 4
+  MaxDepth = 5
+  MaxBlocks = 2
 INVARIANT NoViolation
 
 VIEW View
